@@ -458,3 +458,39 @@ def py_guards(x, k):
     g01gq = novd or (sqci == 0 and sqcz == 0)
     has_gen = any(g["bus"] == k and g["on"] for g in x.gens)
     return g01p, g01q, g01gp, g01gq, has_gen, (k in x.ref)
+
+
+def py_zip_terms(x, k):
+    """exact rational ingredients of the imbalance formulas of ppc bus k: PD, QD, bus-row fractions, demand-weighted sums"""
+    la = [d for d in x.loads if d["bus"] == k]
+    ap = lambda d: _fr(d["p"]) * _fr(d["sc"]) * (1 if d["on"] else 0)
+    aq = lambda d: _fr(d["q"]) * _fr(d["sc"]) * (1 if d["on"] else 0)
+    pd = sum((ap(d) for d in la), Fraction(0))
+    qd = sum((aq(d) for d in la), Fraction(0))
+    for d in x.pqs:
+        if d["bus"] == k:
+            sg = -1 if d["gen"] else 1
+            pd += _fr(cq.round_bits(Fraction(d["p"]), 40)) * (1 if d["on"] else 0) * _fr(d["sc"]) * sg
+            qd += _fr(cq.round_bits(Fraction(d["q"]), 40)) * (1 if d["on"] else 0) * _fr(d["sc"]) * sg
+    z = [Fraction(0)] * 4
+    if x.vdl:
+        for pb, kb in x.bus_order:
+            act = [d for d in x.loads if d["pbus"] == pb and d["on"]]
+            if kb == k and act:
+                z = [sum((_fr(d[c]) / 100 for d in act), Fraction(0)) / len(act) for c in ("cip", "czp", "ciq", "czq")]
+    return dict(pd=pd, qd=qd, z=z,
+                spci=sum((ap(d) * _fr(d["cip"]) / 100 for d in la), Fraction(0)), spcz=sum((ap(d) * _fr(d["czp"]) / 100 for d in la), Fraction(0)),
+                sqci=sum((aq(d) * _fr(d["ciq"]) / 100 for d in la), Fraction(0)), sqcz=sum((aq(d) * _fr(d["czq"]) / 100 for d in la), Fraction(0)))
+
+
+def py_fold_prediction(x, k, v, pl, ql):
+    """(- zipdef_p + qlimdef_p, - zipdef_q + qlimdef_q) of C01.Model for bus k at voltage v, floats"""
+    if not x.vdl:
+        return 0.0, 0.0
+    t = py_zip_terms(x, k)
+    v = Fraction(v)
+    zp = (v - 1) * (t["pd"] * t["z"][0] - t["spci"]) + (v * v - 1) * (t["pd"] * t["z"][1] - t["spcz"])
+    zq = (v - 1) * (t["qd"] * t["z"][2] - t["sqci"]) + (v * v - 1) * (t["qd"] * t["z"][3] - t["sqcz"])
+    fp = Fraction(pl) * (t["z"][0] * (v - 1) + t["z"][1] * (v * v - 1))
+    fq = Fraction(ql) * (t["z"][2] * (v - 1) + t["z"][3] * (v * v - 1))
+    return float(-zp + fp), float(-zq + fq)
